@@ -173,7 +173,7 @@ var c18Writes = []string{"create", "update", "delete", "udelete", "compact"}
 func genC18(t *rapid.T) interface{} {
 	c := &c18Case{Role: rapid.SampledFrom([]string{"follower", "follower", "follower", "leader"}).Draw(t, "role")}
 	c.Proxy = DrawBool(t, 40, "proxy")
-	c.LeaderState = rapid.SampledFrom([]string{"ok", "ok", "ok", "down", "400", "500", "truncated", "noleader", "noleader-blank"}).Draw(t, "leaderState")
+	c.LeaderState = rapid.SampledFrom([]string{"ok", "ok", "ok", "down", "400", "500", "truncated", "noleader", "noleader-blank", "foreign"}).Draw(t, "leaderState")
 	n := rapid.IntRange(3, 20).Draw(t, "nreqs")
 	for i := 0; i < n; i++ {
 		r := c18Req{API: rapid.SampledFrom([]string{"etcd", "brain"}).Draw(t, "api"), K: DrawIntn(t, 4, "key")}
@@ -240,6 +240,12 @@ func newC18Node(role string, proxy bool, leaderState string) (*c18Node, error) {
 			return
 		case "500":
 			w.WriteHeader(500)
+			return
+		case "foreign":
+			// whatever answers at the leader's address is not the leader (an address taken over by another service, a
+			// load balancer's page): status 200, but no revision in it
+			w.WriteHeader(200)
+			_, _ = w.Write([]byte("<html><body>It works!</body></html>"))
 			return
 		case "truncated":
 			// the connection to the leader dies after the 200 header, before the whole body has arrived
@@ -613,6 +619,27 @@ func runC18(ci interface{}, st *CaseStats) error {
 
 // probeC18SingleFlight: a follower read that begins after the leader acknowledged a write must not adopt a revision
 // the leader computed before that write
+// probeC18ForeignAnswer: what answers at the leader's address is not the leader (status 200, no revision in the body)
+func probeC18ForeignAnswer() (bool, string) {
+	n, err := newC18Node("follower", false, "foreign")
+	if err != nil {
+		return false, err.Error()
+	}
+	defer n.close()
+	n.rec.take()
+	_, gerr := n.brainSrv.Get(context.Background(), &proto.GetRequest{Key: []byte(FullKey("a"))})
+	calls, revs := n.rec.take()
+	for i, cl := range calls {
+		if cl == "SetCurrentRevision" {
+			return true, fmt.Sprintf("the follower adopted revision %d from an answer that is not the leader's and served the read (error %v, backend calls %v)", revs[i], gerr, calls)
+		}
+	}
+	if gerr == nil {
+		return true, fmt.Sprintf("the read was answered although the leader's revision could not be obtained (backend calls %v)", calls)
+	}
+	return false, ""
+}
+
 func probeC18SingleFlight() (bool, string) {
 	n, err := newC18Node("follower", false, "ok")
 	if err != nil {
@@ -671,7 +698,8 @@ var specC18 = &Spec{
 	New:  func() interface{} { return &c18Case{} },
 	Run:  runC18,
 	Probes: map[string]func() (bool, string){
-		"singleflight-shares-fetch-started-before-read": probeC18SingleFlight,
+		"singleflight-shares-fetch-started-before-read":    probeC18SingleFlight,
+		"follower-adopts-revision-0-from-a-foreign-answer": probeC18ForeignAnswer,
 	},
 	Assumptions: []string{
 		"the leader is scripted (httptest /status endpoint with the real LeaderRevision JSON); two complete nodes over one store are exercised by the integrated mode (TestC18Nodes)",
